@@ -7,6 +7,7 @@
          "show"     {{ constant }}  whose rendering is v            (value-producing)
          "render"   {{ render "p.<ext>" }} of a partial whose content is v
          "stmt"     {% ... %} / {%% ... %%}; d = 1 opens a block, d = 2 closes one, else 0
+         "decl"     a statement that is a declaration ({% var ... %})
          "comment"  {# ... #}
          "raw"      {% raw [m] %} v {% end [raw m] %}; the content v starts w bytes into s
          "shebang"  #!...\n  (first piece only)
@@ -39,6 +40,7 @@ ClassOf(p) ==
     \* the property does not clearly exclude it.  Its output v is still demanded.
     [] p.k = "render"  -> Rep(cS, Len(p.s))
     [] p.k = "stmt"    -> Rep(cS, Len(p.s))
+    [] p.k = "decl"    -> Rep(cS, Len(p.s))
     [] p.k = "comment" -> Rep(cS, Len(p.s))
     [] p.k = "shebang" -> Rep(cX, Len(p.s))
     [] p.k = "raw"     -> Rep(cS, p.w) \o Rep(cR, Len(p.v)) \o Rep(cS, Len(p.s) - p.w - Len(p.v))
@@ -50,6 +52,14 @@ Src(ps) == SrcFrom(ps, 1)
 RECURSIVE ClsFrom(_, _)
 ClsFrom(ps, i) == IF i > Len(ps) THEN <<>> ELSE ClassOf(ps[i]) \o ClsFrom(ps, i + 1)
 Cls(ps) == ClsFrom(ps, 1)
+\* token identity of every source byte (0 = not part of a statement/comment/show token): piece i is token
+\* 2i, the {% end %} that closes raw block i is token 2i+1
+TidOf(p, i) == IF p.k = "text" \/ p.k = "shebang" THEN Rep(0, Len(p.s))
+               ELSE IF p.k = "raw" THEN Rep(2 * i, p.w) \o Rep(0, Len(p.v)) \o Rep(2 * i + 1, Len(p.s) - p.w - Len(p.v))
+               ELSE Rep(2 * i, Len(p.s))
+RECURSIVE TidFrom(_, _)
+TidFrom(ps, i) == IF i > Len(ps) THEN <<>> ELSE TidOf(ps[i], i) \o TidFrom(ps, i + 1)
+Tid(ps) == TidFrom(ps, 1)
 
 \* READING: lines are the PHYSICAL lines of the source (every LF counts, also one inside a comment
 \* or a statement; a line feed belongs to the line it terminates); a comment spanning two lines is
@@ -61,39 +71,72 @@ Cls(ps) == ClsFrom(ps, 1)
 \* own test (test/misc "Raw statement") demands  a<LF>{% raw %}<LF>b<LF>{% end %}<LF>c  ->  a<LF>b<LF>c,
 \* i.e. the LF that follows {% raw %} - lexically raw content - vanishes with the statement-only line.
 \*
-\* MayIdx: the source indices of the text / raw-content bytes lying on a CONTENT-FREE line: a line with
-\* at least (part of) one statement/comment, no value-producing show, and whose every byte of literal
-\* text or raw content is white space.  One pass; start = first index of the current line,
-\* hasS = statement/comment syntax seen on it, bad = show syntax or non-space text seen on it.
+\* A CONTENT-FREE line: a line with at least (part of) one statement/comment, no value-producing show,
+\* and whose every byte of literal text or raw content is white space.
+\*
+\* READING (the two sides of the envelope).  The statement says such lines ARE removed.  The must-remove
+\* side is stated only where no reading of the statement and no established behaviour speaks against it:
+\*   a content-free line MUST vanish (none of its text bytes may appear: set `gone`) when
+\*     - it holds exactly ONE statement/comment token (the parser deliberately leaves a line with several
+\*       alone: `numTokenInLine == 1`; the repository's tests pin `  {% if T %}{# c<LF>d #}` -> spaces kept),
+\*     - that token STARTS on the line (the line holding only the tail of a token that began earlier shares
+\*       the fate of that earlier line: `x{%% ..<LF>%%}<LF>` keeps its line feed today),
+\*     - the token does not end the file (nothing follows that could close the line: `<LF> {% end %}` at the
+\*       end of a file keeps its space today),
+\*     - the token is not a declaration ({% var %} / const lines are left in place today; whether that is
+\*       intended is not documented);
+\*   every other content-free line MAY vanish, wholly or in part (set `may`).
+\* One pass; start = first index of the current line, hasS = statement/comment syntax seen on it,
+\* bad = show syntax or non-space text seen on it, tk = the tokens seen on it.  Result <<may, gone>>.
 TextIn(cls, a, b) == {j \in a..b : cls[j] \in {cT, cR}}
-RECURSIVE MayScan(_, _, _, _, _, _, _)
-MayScan(src, cls, k, start, hasS, bad, acc) ==
-  IF k > Len(src) THEN (IF hasS /\ ~bad THEN acc \cup TextIn(cls, start, Len(src)) ELSE acc)
+MustVanish(src, tid, decl, start, tk) ==
+  /\ Cardinality(tk) = 1
+  /\ LET t == CHOOSE t \in tk : TRUE IN
+     /\ t \notin decl
+     /\ \A j \in 1..(start - 1) : tid[j] # t
+     /\ tid[Len(src)] # t
+RECURSIVE MayScan(_, _, _, _, _, _, _, _, _, _)
+MayScan(src, cls, tid, decl, k, start, hasS, bad, tk, acc) ==
+  IF k > Len(src)
+  THEN (IF hasS /\ ~bad THEN (IF MustVanish(src, tid, decl, start, tk) THEN <<acc[1], acc[2] \cup TextIn(cls, start, Len(src))>>
+                               ELSE <<acc[1] \cup TextIn(cls, start, Len(src)), acc[2]>>)
+        ELSE acc)
   ELSE LET c == cls[k]
            hasS2 == hasS \/ c = cS
            bad2 == bad \/ c = cH \/ (c \in {cT, cR} /\ src[k] \notin WS)
+           tk2 == IF tid[k] # 0 THEN tk \cup {tid[k]} ELSE tk
        IN IF src[k] = NLc
-          THEN LET acc2 == IF hasS2 /\ ~bad2 THEN acc \cup TextIn(cls, start, k) ELSE acc
-               IN MayScan(src, cls, k + 1, k + 1, FALSE, FALSE, acc2)
-          ELSE MayScan(src, cls, k + 1, start, hasS2, bad2, acc)
-MayIdx(src, cls) == MayScan(src, cls, 1, 1, FALSE, FALSE, {})
+          THEN LET acc2 == IF hasS2 /\ ~bad2
+                           THEN (IF MustVanish(src, tid, decl, start, tk2) THEN <<acc[1], acc[2] \cup TextIn(cls, start, k)>>
+                                 ELSE <<acc[1] \cup TextIn(cls, start, k), acc[2]>>)
+                           ELSE acc
+               IN MayScan(src, cls, tid, decl, k + 1, k + 1, FALSE, FALSE, {}, acc2)
+          ELSE MayScan(src, cls, tid, decl, k + 1, start, hasS2, bad2, tk2, acc)
+DeclTids(ps) == {2 * i : i \in {j \in DOMAIN ps : ps[j].k = "decl"}}
+MayGoneP(ps, src, cls) == LET tid == Tid(ps) decl == DeclTids(ps) IN MayScan(src, cls, tid, decl, 1, 1, FALSE, FALSE, {}, <<{}, {}>>)
 
 (* The envelope is a sequence of <<byte, flag>>: flag 0 = MUST appear, 1 = MAY be missing.
      must-keep   every text / raw-content byte outside the content-free lines, every show value
-     may-remove  text / raw-content bytes (all white space, incl. the LF) of a content-free line
-     must-remove everything else (syntax, comments, shebang): it has no entry at all         *)
-RECURSIVE EnvFrom(_, _, _, _, _, _)
-EnvFrom(ps, i, off, src, cls, mayIdx) ==   \* off = number of source bytes before piece i
+     may-remove  text / raw-content bytes (all white space, incl. the LF) of a content-free line with several tokens
+     must-remove the text bytes of a content-free line with one token; syntax, comments, shebang: no entry at all *)
+RECURSIVE EnvFrom(_, _, _, _, _, _, _)
+EnvFrom(ps, i, off, src, cls, mayIdx, goneIdx) ==   \* off = number of source bytes before piece i
   IF i > Len(ps) THEN <<>>
   ELSE LET p == ps[i]
-           own == IF p.k \in {"show", "render"} THEN [x \in 1..Len(p.v) |-> <<p.v[x], 0>>]
-                  ELSE IF p.k = "text" THEN [x \in 1..Len(p.s) |-> <<p.s[x], IF (off + x) \in mayIdx THEN 1 ELSE 0>>]
-                  ELSE IF p.k = "raw" THEN [x \in 1..Len(p.v) |-> <<p.v[x], IF (off + p.w + x) \in mayIdx THEN 1 ELSE 0>>]
+           idx == IF p.k = "text" THEN [x \in 1..Len(p.s) |-> off + x]
+                  ELSE IF p.k = "raw" THEN [x \in 1..Len(p.v) |-> off + p.w + x]
                   ELSE <<>>
-       IN own \o EnvFrom(ps, i + 1, off + Len(p.s), src, cls, mayIdx)
-EnvWith(ps, src, cls, may) == EnvFrom(ps, 1, 0, src, cls, may)
-EnvelopeX(ps, src, cls) == LET may == MayIdx(src, cls) IN EnvWith(ps, src, cls, may)
+           kept == SelectSeq(idx, LAMBDA k : k \notin goneIdx)
+           own == IF p.k \in {"show", "render"} THEN [x \in 1..Len(p.v) |-> <<p.v[x], 0>>]
+                  ELSE [x \in 1..Len(kept) |-> <<src[kept[x]], IF kept[x] \in mayIdx THEN 1 ELSE 0>>]
+       IN own \o EnvFrom(ps, i + 1, off + Len(p.s), src, cls, mayIdx, goneIdx)
+EnvWith(ps, src, cls, may) == EnvFrom(ps, 1, 0, src, cls, may, {})          \* nothing must vanish
+\* the property's envelope
+EnvelopeX(ps, src, cls) == LET mg == MayGoneP(ps, src, cls) IN EnvFrom(ps, 1, 0, src, cls, mg[1], mg[2])
 Envelope(ps) == LET src == Src(ps) cls == Cls(ps) IN EnvelopeX(ps, src, cls)
+\* the same with every content-free line merely allowed to vanish (used to name the cause of a violation,
+\* and as the weaker design-level invariant of MC_Cut)
+LenientX(ps, src, cls) == LET mg == MayGoneP(ps, src, cls) may == mg[1] \cup mg[2] IN EnvWith(ps, src, cls, may)
 
 \* membership: out is obtained from the envelope by deleting some MAY bytes and nothing else.
 \* R = set of positions j such that out[1..j-1] can be produced by env[1..i-1]   (polynomial DP)
@@ -107,9 +150,10 @@ Reach(env, out, i, R) ==
 Member(env, out) == (Len(out) + 1) \in Reach(env, out, 1, {1})
 InEnvelopeX(ps, src, cls, out) == LET env == EnvelopeX(ps, src, cls) IN Member(env, out)
 InEnvelope(ps, out) == LET src == Src(ps) cls == Cls(ps) IN InEnvelopeX(ps, src, cls, out)
+InLenient(ps, out) == LET src == Src(ps) cls == Cls(ps) env == LenientX(ps, src, cls) IN Member(env, out)
 
 (* ---- which (pieces, format) the reference has an opinion about; anything else is ref_undefined ---- *)
-Kinds == {"text", "show", "render", "stmt", "comment", "raw", "shebang"}
+Kinds == {"text", "show", "render", "stmt", "decl", "comment", "raw", "shebang"}
 RECURSIVE DepthOk(_, _, _)
 DepthOk(ps, i, dp) == IF i > Len(ps) THEN dp = 0
                       ELSE LET d2 == dp + (IF ps[i].k = "stmt" /\ ps[i].d = 1 THEN 1 ELSE IF ps[i].k = "stmt" /\ ps[i].d = 2 THEN -1 ELSE 0)
@@ -154,29 +198,55 @@ AfterML(ps, src, cls, i, off) ==
   IF i > Len(ps) THEN {}
   ELSE (IF ps[i].k = "stmt" /\ \E x \in DOMAIN ps[i].s : ps[i].s[x] = NLc THEN LeadRun(src, cls, off + Len(ps[i].s) + 1) ELSE {})
        \cup AfterML(ps, src, cls, i + 1, off + Len(ps[i].s))
-\* <<cause, detail>>: the smallest class of removed bytes that explains `out`
+\* where, on its line, the single token of the content-free line starting at s lies; its catalogue name;
+\* what follows the token's end (blanks skipped)
+TokenWhere(ps, src, cls, tid, s) ==
+  LET e == LineEnd(src, s)
+      ks == {k \in s..e : cls[k] = cS}
+      k0 == CHOOSE k \in ks : \A j \in ks : k <= j
+      ext == {k \in DOMAIN src : tid[k] = tid[k0]}
+      pi == PieceAt(ps, 1, 0, k0)
+      g == CHOOSE k \in ext : \A j \in ext : j <= k            \* last byte of the token
+      h == g + 1 + Cardinality(LeadRun(src, cls, g + 1))          \* first byte after the token and the blanks that follow it
+      nxt == IF h > Len(src) THEN "end-of-file"
+             ELSE IF cls[h] \notin {cT, cR} THEN "syntax"
+             ELSE IF src[h] = NLc THEN "line-feed" ELSE "text"
+  IN IF ks = {} THEN <<"none", "-", "-">>
+     ELSE <<(IF \E k \in ext : k < s THEN "tail-of-token-spanning-lines"
+             ELSE IF \E k \in ext : k > e + 1 THEN "head-of-token-spanning-lines"
+             ELSE IF e = Len(src) THEN "last-line-without-line-feed"
+             ELSE "whole-token"), ps[pi].n, nxt>>
+\* <<cause, detail, ctx, next>>: the smallest relaxation of the envelope that explains `out`
 Cause(ps, out) ==
-  LET src == Src(ps) cls == Cls(ps) may == MayIdx(src, cls)
+  LET src == Src(ps) cls == Cls(ps) tid == Tid(ps) mg == MayGoneP(ps, src, cls) may == mg[1] \cup mg[2]
       text == {k \in DOMAIN src : cls[k] \in {cT, cR}}
       starts == LineStartSet(src)
       lead == UNION {LeadRun(src, cls, s) : s \in starts}
       aml == AfterML(ps, src, cls, 1, 0)
+      e0 == EnvWith(ps, src, cls, may)
       e1 == EnvWith(ps, src, cls, may \cup lead)
       e2 == EnvWith(ps, src, cls, may \cup aml)
       e3 == EnvWith(ps, src, cls, may \cup lead \cup aml)
       e4 == EnvWith(ps, src, cls, may \cup {k \in text : src[k] \in WS})
       e5 == EnvWith(ps, src, cls, text)
+      \* the one-token content-free lines that must have been kept (not removed) to explain out
+      lineOf(s) == {k \in s..(LineEnd(src, s) + 1) : k \in mg[2]}
+      keptLines == {s \in starts : lineOf(s) # {} /\
+                      LET e == EnvFrom(ps, 1, 0, src, cls, may \ lineOf(s), lineOf(s)) IN ~Member(e, out)}
+      tw == IF keptLines = {} THEN <<"ambiguous", "-", "-">>
+            ELSE TokenWhere(ps, src, cls, tid, CHOOSE s \in keptLines : \A s2 \in keptLines : s <= s2)
       \* the lines whose leading space must have been dropped to explain out
       needed == {s \in starts : LeadRun(src, cls, s) # {} /\
                      LET e == EnvWith(ps, src, cls, may \cup (lead \ LeadRun(src, cls, s))) IN ~Member(e, out)}
       closer == IF needed = {} THEN "ambiguous"
                 ELSE IF \A s \in needed : CloserKind(ps, src, s) = "comment" THEN "line-closed-by-comment" ELSE "line-closed-by-other"
-  IN IF Member(e1, out) THEN <<"leading-space-of-line-with-content-removed", closer>>
-     ELSE IF Member(e2, out) THEN <<"space-after-multi-line-statement-removed-from-line-with-content", "-">>
-     ELSE IF Member(e3, out) THEN <<"leading-space-and-space-after-multi-line-statement-removed", "-">>
-     ELSE IF Member(e4, out) THEN <<"white-space-outside-content-free-lines-removed", "-">>
-     ELSE IF Member(e5, out) THEN <<"text-removed", "-">>
-     ELSE <<"text-changed-or-added", "-">>
+  IN IF Member(e0, out) THEN <<"content-free-line-with-one-token-not-removed", tw[1], tw[2], tw[3]>>
+     ELSE IF Member(e1, out) THEN <<"leading-space-of-line-with-content-removed", closer, "-", "-">>
+     ELSE IF Member(e2, out) THEN <<"space-after-multi-line-statement-removed-from-line-with-content", "-", "-", "-">>
+     ELSE IF Member(e3, out) THEN <<"leading-space-and-space-after-multi-line-statement-removed", "-", "-", "-">>
+     ELSE IF Member(e4, out) THEN <<"white-space-outside-content-free-lines-removed", "-", "-", "-">>
+     ELSE IF Member(e5, out) THEN <<"text-removed", "-", "-", "-">>
+     ELSE <<"text-changed-or-added", "-", "-", "-">>
 
 (* =====================================================================================
    PART 2 - implementation-shaped model
@@ -198,7 +268,8 @@ SetsCutTok(p) == CASE p.k = "comment" -> TRUE
                    [] p.k = "render"  -> TRUE
                    [] p.k = "raw"     -> TRUE
                    [] p.k = "show"    -> FALSE
-                   [] p.k = "stmt"    -> p.n \notin {"var"}
+                   [] p.k = "stmt"    -> TRUE
+                   [] p.k = "decl"    -> FALSE
                    [] OTHER           -> FALSE
 
 RECURSIVE LexFrom(_, _, _, _)
@@ -209,10 +280,10 @@ LexFrom(ps, i, line, buf) ==
       [] p.k = "shebang" -> LexFrom(ps, i + 1, line + 1, buf)          \* emit(tokenShebangLine); l.line++
       [] p.k = "comment" -> LET l1 == line + NLs(buf) l2 == l1 + NLs(p.s) IN     \* lexComment emits after counting its lines
                             FlushText(buf, line) \o <<Tok("cmt", <<>>, l1, l2, TRUE, <<>>)>> \o LexFrom(ps, i + 1, l2, <<>>)
-      [] p.k \in {"stmt", "show", "render"} ->
+      [] p.k \in {"stmt", "decl", "show", "render"} ->
                             LET l1 == line + NLs(buf) l2 == l1 + NLs(p.s) IN       \* {% / {%% / {{ is emitted before its code is lexed
                             FlushText(buf, line)
-                            \o <<Tok(IF p.k = "stmt" THEN "stmt" ELSE "show", <<>>, l1, l1, SetsCutTok(p), IF p.k = "stmt" THEN <<>> ELSE p.v)>>
+                            \o <<Tok(IF p.k \in {"stmt", "decl"} THEN "stmt" ELSE "show", <<>>, l1, l1, SetsCutTok(p), IF p.k \in {"stmt", "decl"} THEN <<>> ELSE p.v)>>
                             \o LexFrom(ps, i + 1, l2, <<>>)
       [] p.k = "raw"     -> LET l1 == line + NLs(buf)
                                 l2 == l1 + NLs(p.v)                                 \* skipRawContent
@@ -307,6 +378,13 @@ B_rawmbody == <<123,37,32,101,110,100,32,37,125>>
 B_rawnl == <<123,37,32,114,97,119,32,37,125,10,32,123,35,32,114,32,35,125,10,123,37,32,101,110,100,32,37,125>>   \* {% raw %}<LF> {# r #}<LF>{% end %}
 B_rawnlbody == <<10,32,123,35,32,114,32,35,125,10>>
 B_rawe == <<123,37,32,114,97,119,32,37,125,123,37,32,101,110,100,32,37,125>>    \* {% raw %}{% end %}
+\* raw content that looks like the start of template syntax right before the end of the block
+B_rawp == <<123,37,32,114,97,119,32,37,125,97,123,37,123,37,32,101,110,100,32,37,125>>                     \* {% raw %}a{%{% end %}
+B_rawps == <<123,37,32,114,97,119,32,37,125,97,123,37,32,123,37,32,101,110,100,32,114,97,119,32,37,125>>   \* {% raw %}a{% {% end raw %}
+B_rawpn == <<123,37,32,114,97,119,32,37,125,97,123,37,10,123,37,32,101,110,100,32,37,125>>                 \* {% raw %}a{%<LF>{% end %}
+B_rawbb == <<123,37,32,114,97,119,32,37,125,97,123,123,123,37,32,101,110,100,32,37,125>>                   \* {% raw %}a{{{% end %}
+B_rawh == <<123,37,32,114,97,119,32,109,32,37,125,97,123,35,123,37,32,101,110,100,32,114,97,119,32,109,32,37,125>>   \* {% raw m %}a{#{% end raw m %}
+B_ifml == <<123,37,32,105,102,32,116,114,117,101,32,38,38,10,32,116,114,117,101,32,37,125>>                 \* {% if true &&<LF> true %}
 B_shebang == <<35,33,47,120,10>>                                                 \* #!/x<LF>
 B_var_pre == <<123,37,32,118,97,114,32,97>>   B_var_post == <<32,61,32,49,32,37,125>>          \* {% var a<i> = 1 %}
 B_stmts_pre == <<123,37,37,32,98>>            B_stmts_post == <<32,58,61,32,49,32,37,37,125>>  \* {%% b<i> := 1 %%}
@@ -321,8 +399,8 @@ TextBytes(n) == CASE n = "x" -> <<120>> [] n = "sp" -> <<32>> [] n = "tab" -> <<
                   [] n = "spnl" -> <<32,10>> [] n = "nlsp" -> <<10,32>> [] n = "xnl" -> <<120,10>> [] n = "crnl" -> <<13,10>>
                   [] n = "cr" -> <<13>> [] n = "lb" -> <<123>> [] n = "rb" -> <<125>> [] n = "hash" -> <<35>> [] n = "pct" -> <<37>>
                   [] n = "bom" -> <<239,187,191>> [] n = "b" -> <<60,98,62>>
-SyntaxNames == {"show7", "shows", "render", "if", "end", "assign", "var", "stmts", "stmtsml", "cmt", "cmtn", "cmtml",
-                "raw", "rawm", "rawnl", "rawe", "shebang"}
+SyntaxNames == {"show7", "shows", "render", "if", "ifml", "end", "assign", "var", "stmts", "stmtsml", "cmt", "cmtn", "cmtml",
+                "raw", "rawm", "rawnl", "rawe", "rawp", "rawps", "rawpn", "rawbb", "rawh", "shebang"}
 AllNames == TextNames \cup SyntaxNames
 P(n, k, s, v, w, d) == [n |-> n, k |-> k, s |-> s, v |-> v, w |-> w, d |-> d]
 Digit(i) == <<48 + (i % 10)>>
@@ -335,7 +413,7 @@ Piece(n, i, f) ==
          [] n = "if"      -> P(n, "stmt", B_if, <<>>, 0, 1)
          [] n = "end"     -> P(n, "stmt", B_end, <<>>, 0, 2)
          [] n = "assign"  -> P(n, "stmt", B_assign, <<>>, 0, 0)
-         [] n = "var"     -> P(n, "stmt", B_var_pre \o Digit(i) \o B_var_post, <<>>, 0, 0)
+         [] n = "var"     -> P(n, "decl", B_var_pre \o Digit(i) \o B_var_post, <<>>, 0, 0)
          [] n = "stmts"   -> P(n, "stmt", B_stmts_pre \o Digit(i) \o B_stmts_post, <<>>, 0, 0)
          [] n = "stmtsml" -> P(n, "stmt", B_stmts_pre \o Digit(i) \o B_stmtsml_post, <<>>, 0, 0)
          [] n = "cmt"     -> P(n, "comment", B_cmt, <<>>, 0, 0)
@@ -345,6 +423,12 @@ Piece(n, i, f) ==
          [] n = "rawm"    -> P(n, "raw", B_rawm, B_rawmbody, 11, 0)
          [] n = "rawnl"   -> P(n, "raw", B_rawnl, B_rawnlbody, 9, 0)
          [] n = "rawe"    -> P(n, "raw", B_rawe, <<>>, 9, 0)
+         [] n = "rawp"    -> P(n, "raw", B_rawp, <<97,123,37>>, 9, 0)
+         [] n = "rawps"   -> P(n, "raw", B_rawps, <<97,123,37,32>>, 9, 0)
+         [] n = "rawpn"   -> P(n, "raw", B_rawpn, <<97,123,37,10>>, 9, 0)
+         [] n = "rawbb"   -> P(n, "raw", B_rawbb, <<97,123,123>>, 9, 0)
+         [] n = "rawh"    -> P(n, "raw", B_rawh, <<97,123,35>>, 11, 0)
+         [] n = "ifml"    -> P(n, "stmt", B_ifml, <<>>, 0, 1)
          [] n = "shebang" -> P(n, "shebang", B_shebang, <<>>, 0, 0)
 Pieces(names, f) == [i \in DOMAIN names |-> Piece(names[i], i, f)]
 =============================================================================
